@@ -126,14 +126,31 @@ func derivesFromCall(v ssa.Value, pred func(c *ssa.Call) bool) bool {
 	return walk(v)
 }
 
-// sameLoad: a and b are the same SSA value or loads of the same address.
+// sameLoad: a and b are the same SSA value or structurally the same load
+// (same field path from the same base), e.g. two reads of seg.MinIndex.
 func sameLoad(a, b ssa.Value) bool {
+	return sameExpr(a, b, 0)
+}
+
+func sameExpr(a, b ssa.Value, depth int) bool {
 	if a == b {
 		return true
 	}
-	ua, ok1 := a.(*ssa.UnOp)
-	ub, ok2 := b.(*ssa.UnOp)
-	return ok1 && ok2 && ua.Op == token.MUL && ub.Op == token.MUL && ua.X == ub.X
+	if depth > 6 || a == nil || b == nil {
+		return false
+	}
+	switch x := a.(type) {
+	case *ssa.UnOp:
+		y, ok := b.(*ssa.UnOp)
+		return ok && x.Op == y.Op && sameExpr(x.X, y.X, depth+1)
+	case *ssa.FieldAddr:
+		y, ok := b.(*ssa.FieldAddr)
+		return ok && x.Field == y.Field && sameExpr(x.X, y.X, depth+1)
+	case *ssa.Field:
+		y, ok := b.(*ssa.Field)
+		return ok && x.Field == y.Field && sameExpr(x.X, y.X, depth+1)
+	}
+	return false
 }
 
 // ---------------------------------------------------------------- ORD-11
